@@ -167,6 +167,8 @@ def run_unit(unit, ctx):
         if bool(gp) != rp or bool(gc) != rc:
             for sig, msg in check_string(s)[:2]:
                 ctx.violation("C20/" + sig, msg, {"s": s})
+    if unit.get("sweep"):
+        ctx.count("sweep_cases", n)
     ctx.count("evaluations", 2 * n)
     ctx.count("transitions", n)
     ctx.count("strings", n)
